@@ -17,7 +17,15 @@ HIDDEN = {"resext": "reservoir-external", "delay": "delay", "nvar": "nvar"}
 def gen_scenario(rng, i, with_boom=None):
     with_boom = rng.random() < 0.3 if with_boom is None else with_boom
     esn_models = None
-    if rng.random() < 0.15 and not with_boom:
+    fbsc = None
+    if rng.random() < 0.18 and not with_boom:
+        # a model with a feedback connection (families of C05): reset / from_state / stateful=False must also govern what the
+        # receiver is handed at the first step of the operation
+        from props import c05
+        fbsc = c05.gen_scenario(rng, i, rng.choice(["down", "up", "sub-up", "sub-down"]))
+        nodes, din = fbsc["nodes"], fbsc["dim"]
+        edges, entries = None, None
+    elif rng.random() < 0.15 and not with_boom:
         nodes, esn_models, din = scengen.gen_esn(rng)
         edges, entries = [[0, 1]], [0]
     elif rng.random() < 0.35:
@@ -41,8 +49,10 @@ def gen_scenario(rng, i, with_boom=None):
                     idc = sum(nodes[a]["odim"] for a in pc)
                     if idc != nodes[c]["idim"]:
                         nodes[c] = scengen.make_node(rng, c, "fun", idc)
-    sc = {"nodes": nodes, "models": esn_models or scengen.chain_models(nodes, edges), "ops": [], "entries": entries, "din": din, "tag": i,
-          "kinds": sorted(set(nd["kind"] for nd in nodes))}
+    sc = {"nodes": nodes, "models": fbsc["models"] if fbsc else (esn_models or scengen.chain_models(nodes, edges)), "ops": [], "entries": entries,
+          "din": din, "tag": i, "kinds": sorted(set(nd["kind"] for nd in nodes))}
+    if fbsc:
+        sc.update(family="fb-" + fbsc["family"], recv=fbsc["recv"], send=fbsc["send"], dim=din)
     odim = {nd["id"]: nd["odim"] for nd in nodes}
     single = len(nodes) == 1
     for _ in range(rng.randint(3, 7)):
